@@ -134,4 +134,53 @@ def setAppend (v : Vol) (key : Nat) (appendNs : Nat) : Vol :=
 /-- minutes promised by the volume TTL that a TTL string denotes (`ReadTTL` then `Minutes`) -/
 def minutesOfTtlString (s : List Char) : Nat := ttlMinutes (readTTL s).1
 
+/-! ## Filer side: entry visibility (weed/filer/filer.go FindEntry / doListDirectoryEntries, CreateEntry / UpdateEntry)
+
+`entry.Crtime.Add(TtlSec s).Before(time.Now())` ⇒ the entry is deleted from the store and reported not found.
+Crtime is stored in whole seconds (entry_codec). `UpdateEntry` keeps the OLD entry's Crtime. The chunks of an
+entry with `TtlSec = s` are assigned with ttl string `SecondsToTTL(s)` (detectStorageOption → AssignVolume), so a
+chunk needle carries the TTL that string denotes and is readable per `readable` above. -/
+
+structure Chunk where
+  ttl : TTL            -- TTL of the chunk needle (= of the volume it was assigned to)
+  appendNs : Nat       -- when the chunk was written
+deriving Repr, DecidableEq
+
+structure FEntry where
+  ttlSec : Nat
+  crtime : Nat         -- seconds
+  mtime : Nat          -- seconds
+  chunks : List Chunk
+deriving Repr, DecidableEq
+
+/-- not (Crtime + TtlSec).Before(now) -/
+def entryVisible (e : FEntry) (nowNs : Nat) : Bool :=
+  e.ttlSec = 0 || decide (nowNs ≤ (e.crtime + e.ttlSec) * nsPerSec)
+
+/-- the needle a chunk is stored as (upload path: LastModified set, TTL flag iff the TTL is not empty) -/
+def chunkNeedle (c : Chunk) : Needle := ⟨decide (c.ttl ≠ emptyTTL), c.ttl, true, c.appendNs / nsPerSec, c.appendNs⟩
+
+def chunkReadable (c : Chunk) (nowNs : Nat) : Bool := readable (chunkNeedle c) nowNs
+
+abbrev FStore := List (Nat × FEntry)
+
+def flookup (st : FStore) (k : Nat) : Option FEntry := (st.find? (·.1 = k)).map (·.2)
+
+/-- `Filer.FindEntry` at `nowNs`: result and store afterwards (an expired entry is deleted) -/
+def ffind (st : FStore) (nowNs k : Nat) : Option FEntry × FStore :=
+  match flookup st k with
+  | none => (none, st)
+  | some e => if entryVisible e nowNs then (some e, st) else (none, st.filter (·.1 ≠ k))
+
+/-- `Filer.ListDirectoryEntries` at `nowNs`: visible entries; expired ones are deleted -/
+def flist (st : FStore) (nowNs : Nat) : FStore := st.filter (fun ke => entryVisible ke.2 nowNs)
+
+/-- `Filer.CreateEntry(entry)`: FindEntry first; insert when absent/expired, else UpdateEntry (keeps the old Crtime) -/
+def fput (st : FStore) (nowNs k : Nat) (e : FEntry) : FStore :=
+  let (old, st1) := ffind st nowNs k
+  let e' := match old with
+    | none => e
+    | some o => { e with crtime := o.crtime }
+  (k, e') :: st1.filter (·.1 ≠ k)
+
 end SwV.Model.C09
